@@ -50,23 +50,56 @@ def scc_rules(ctx, flavours):
         # ---------------- SCC2
         why = []
         ret = strip_payload(spv.of_local(0))
-        pops = [(bi, t) for bi, t in calls_in(sc) if callee_name(t) == 'std::vec::Vec::pop']
         L = _loops_with_driver(F, sc)
+
+        def first_pass_of(term):
+            """the Graph method call on self whose result `term` is (a view of)"""
+            for c in term_calls(term):
+                if c[1] in F.bodies and F.bodies[c[1]]['impl_self_q'] == gp and c[2] and deep_unwrap(c[2][0]) == P1_ and F.bodies[c[1]]['kind'] != 'Closure':
+                    return c
+            return None
         main = None
-        for bi, t in pops:
-            src = deep_unwrap(spv.of_operand(t['args'][0]))
-            if isinstance(src, tuple) and src[0] == 'call' and src[1] in F.bodies and F.bodies[src[1]]['impl_self_q'] == gp and deep_unwrap(src[2][0]) == P1_:
-                main = (bi, t, src)
+        back_to_front = False
+        # (a) while let Some(node) = ordering.pop()
+        for bi, t in calls_in(sc):
+            if callee_name(t) == 'std::vec::Vec::pop':
+                src = first_pass_of(spv.of_operand(t['args'][0]))
+                if src is not None:
+                    main = (bi, t, src)
+                    back_to_front = True
+        # (b) for node in ordering[.iter()|.into_iter()][.rev()], possibly after ordering.reverse()
         if main is None:
-            why.append('scc does not consume a first-pass ordering from the back (Vec::pop on the result of a Graph method)')
-        else:
+            for lb, l in L.items():
+                src = first_pass_of(l['iter'])
+                if src is None:
+                    continue
+                revs = sum(1 for c in term_calls(l['iter']) if c[1] in ('std::iter::Iterator::rev',))
+                others = [c[1] for c in term_calls(l['iter']) if c[1].startswith('std::iter::Iterator::') and c[1].split('::')[-1] in ('skip', 'take', 'filter', 'step_by', 'skip_while', 'take_while')]
+                for rbi, rt in calls_in(sc):
+                    if callee_name(rt).split('::')[-1] == 'reverse' and first_pass_of(spv.of_operand(rt['args'][0])) is not None and scfg.dominates(rbi, lb) and not any(rbi in body for body in scfg.loops().values()):
+                        revs += 1
+                if others:
+                    why.append('the ordering is not consumed completely: ' + ', '.join(others))
+                main = (lb, l['t'], src)
+                back_to_front = revs % 2 == 1
+        if main is None:
+            why.append('scc does not consume a first-pass ordering (no loop over the result of a Graph method)')
+        elif not back_to_front:
+            why.append('the first-pass ordering is consumed front to back (Kosaraju needs decreasing finishing time)')
+        if main is not None:
             bi, t, src = main
             first = F.bodies[src[1]]
-            NODE = deep_unwrap(proj_field(('v', ('call', callee_name(t), tuple(spv.of_operand(a) for a in t['args']), bi), 'Some#1'), '0'))
             NODE = deep_unwrap(('v', ('call', callee_name(t), tuple(spv.of_operand(a) for a in t['args']), bi), 'Some'))
             loops = scfg.loops()
             if not any(bi in body for body in loops.values()):
-                why.append('pop is not in a loop')
+                why.append('the ordering is not consumed in a loop')
+            # the ordering is only consumed one node at a time: no other mutation of it
+            for obi, ot in calls_in(sc):
+                recv = deep_unwrap(spv.of_operand(ot['args'][0])) if ot['args'] else None
+                if isinstance(recv, tuple) and recv and recv[0] == 'call' and recv[1] == src[1] and recv[3] == src[3]:
+                    nm = callee_name(ot).split('::')[-1].rstrip('>')
+                    if nm not in ('pop', 'reverse', 'iter', 'into_iter', 'len', 'is_empty', 'deref', 'deref_mut', 'last', 'rev', 'next'):
+                        why.append('the first-pass ordering is also modified by %s (nodes can be skipped)' % nm)
             # assigned set: the set tested with contains(set, key(NODE))
             conts = [(cbi, ct) for cbi, ct in calls_in(sc) if callee_name(ct).split('::')[-1] == 'contains' and deep_unwrap(spv.of_operand(ct['args'][1])) == key_of(NODE)]
             if len(conts) != 1:
